@@ -31,6 +31,16 @@ type vfNamed string
 type vfNamedInt int64
 type vfUnreg int
 
+// registered struct key types: the JSON text of vfKeyPlain always lists both fields, vfKeyOmit leaves zero fields out
+type vfKeyPlain struct {
+	A string `json:"a"`
+	B int    `json:"b"`
+}
+type vfKeyOmit struct {
+	A string `json:"a,omitempty"`
+	B int    `json:"b,omitempty"`
+}
+
 // statically declared, GenericRegister-ed members of the struct family (the others are reflect.StructOf types
 // entered into the registry maps directly, which is all GenericRegister does)
 type vfStInt struct {
@@ -65,6 +75,8 @@ type vfStMapStrAny struct {
 func init() {
 	_ = GenericRegister[vfNamed]("vf_named")
 	_ = GenericRegister[vfNamedInt]("vf_named_int")
+	_ = GenericRegister[vfKeyPlain]("vf_key_plain")
+	_ = GenericRegister[vfKeyOmit]("vf_key_omit")
 	_ = GenericRegister[vfStInt]("vf_st_int")
 	_ = GenericRegister[vfStAny]("vf_st_any")
 	_ = GenericRegister[vfStPInt]("vf_st_pint")
@@ -94,6 +106,7 @@ var vfBaseTypes = map[string]reflect.Type{
 	"float64": reflect.TypeOf(float64(0)), "bool": reflect.TypeOf(false), "string": reflect.TypeOf(""),
 	"named": reflect.TypeOf(vfNamed("")), "namedint": reflect.TypeOf(vfNamedInt(0)), "unreg": reflect.TypeOf(vfUnreg(0)),
 	"complex128": reflect.TypeOf(complex128(0)), "any": vfAnyType,
+	"skey": reflect.TypeOf(vfKeyPlain{}), "okey": reflect.TypeOf(vfKeyOmit{}),
 }
 var vfBaseTokens = map[reflect.Type]string{}
 
@@ -144,6 +157,8 @@ type vfAbs struct {
 type vfKey struct {
 	Kt string `json:"kt"`
 	Kv string `json:"kv"`
+	Ka string `json:"ka"` // struct key kinds: field A
+	Kb string `json:"kb"` // struct key kinds: field B (decimal)
 }
 
 func vfNilIf() *vfAbs {
@@ -273,6 +288,12 @@ func vfKeyValue(k vfKey) reflect.Value {
 	case "float64":
 		f, _ := strconv.ParseFloat(k.Kv, 64)
 		return reflect.ValueOf(f)
+	case "skey":
+		n, _ := strconv.Atoi(k.Kb)
+		return reflect.ValueOf(vfKeyPlain{A: k.Ka, B: n})
+	case "okey":
+		n, _ := strconv.Atoi(k.Kb)
+		return reflect.ValueOf(vfKeyOmit{A: k.Ka, B: n})
 	}
 	panic("vf: unknown key kind " + k.Kt)
 }
@@ -288,6 +309,10 @@ func vfKeyAbs(v reflect.Value) vfKey {
 	switch x := v.Interface().(type) {
 	case float64:
 		return vfKey{Kt: tok, Kv: strconv.FormatFloat(x, 'g', -1, 64)}
+	case vfKeyPlain:
+		return vfKey{Kt: tok, Ka: x.A, Kb: strconv.Itoa(x.B)}
+	case vfKeyOmit:
+		return vfKey{Kt: tok, Ka: x.A, Kb: strconv.Itoa(x.B)}
 	}
 	return vfKey{Kt: tok, Kv: fmt.Sprint(v.Interface())}
 }
@@ -416,7 +441,13 @@ func vfAbstract(v reflect.Value) *vfAbs {
 			if es[i].k.Kt != es[j].k.Kt {
 				return es[i].k.Kt < es[j].k.Kt
 			}
-			return es[i].k.Kv < es[j].k.Kv
+			if es[i].k.Kv != es[j].k.Kv {
+				return es[i].k.Kv < es[j].k.Kv
+			}
+			if es[i].k.Ka != es[j].k.Ka {
+				return es[i].k.Ka < es[j].k.Ka
+			}
+			return es[i].k.Kb < es[j].k.Kb
 		})
 		for _, e := range es {
 			a.Keys = append(a.Keys, e.k)
